@@ -102,31 +102,48 @@ def main():
         del names[i:i + 2]
     cases = [c for c in mutants.CASES if not names or c['name'] in names or any(n in c['props'] for n in names)]
     bad = 0
+    only_prop = None
+    if '--prop' in names:
+        i = names.index('--prop')
+        only_prop = names[i + 1]
+        del names[i:i + 2]
+    slot = None
+    if '--slot' in names:
+        i = names.index('--slot')
+        slot = int(names[i + 1])
+        del names[i:i + 2]
+        cases = [c for c in mutants.CASES if c['name'] in names]
+    if only_prop:
+        cases = [dict(c, props=[only_prop]) for c in cases if only_prop in c['props']]
     if jobs > 1:
-        from concurrent.futures import ThreadPoolExecutor
-        import threading
+        # one child process per slot (the rules are CPU-bound Python: threads would serialise on the GIL)
         core.build_driver()
-        slots = list(range(jobs))
-        lk = threading.Lock()
-
-        def one(c):
-            with lk:
-                i = slots.pop()
-            try:
-                t = time.time()
-                r = run_case(c, tag=f'stj-{i}', target=worker_target(i))
-                return c, r, time.time() - t
-            finally:
-                with lk:
-                    slots.append(i)
-        with ThreadPoolExecutor(jobs) as ex:
-            for c, res, dt in ex.map(one, cases):
-                verdict, why = judge(c, res)
-                print(f'{verdict:12s} {c["kind"]:7s} {c["name"]:45s} {dt:5.1f}s {why[:400]}', flush=True)
-                if verdict in ('MISSED', 'FALSE-ALARM'):
-                    bad += 1
-                    if res.get('failed'):
-                        print('      reported:', json.dumps(res['failed'])[:1500])
+        chunks = [cases[i::jobs] for i in range(jobs)]
+        procs = []
+        for i, ch in enumerate(chunks):
+            if not ch:
+                continue
+            worker_target(i)
+            procs.append(subprocess.Popen([sys.executable, os.path.abspath(__file__), '--slot', str(i)] + (['--prop', only_prop] if only_prop else []) + [c['name'] for c in ch], stdout=subprocess.PIPE, text=True))
+        for p in procs:
+            out, _ = p.communicate()
+            for line in out.splitlines():
+                if line.endswith(' bad') and ' cases, ' in line:
+                    bad += int(line.split(' cases, ')[1].split()[0])
+                else:
+                    print(line, flush=True)
+        print(f'{len(cases)} cases, {bad} bad')
+        sys.exit(1 if bad else 0)
+    if slot is not None:
+        for c in cases:
+            t = time.time()
+            res = run_case(c, tag=f'stj-{slot}', target=worker_target(slot))
+            verdict, why = judge(c, res)
+            print(f'{verdict:12s} {c["kind"]:7s} {c["name"]:45s} {time.time()-t:5.1f}s {why[:400]}', flush=True)
+            if verdict in ('MISSED', 'FALSE-ALARM'):
+                bad += 1
+                if res.get('failed'):
+                    print('      reported:', json.dumps(res['failed'])[:1500])
         print(f'{len(cases)} cases, {bad} bad')
         sys.exit(1 if bad else 0)
     for c in cases:
